@@ -100,7 +100,8 @@ contract(M + "SymbolTables.enter_scope",
                  "self._current_scope._parent is None)",
     },
     raises={"TypeError": {"nothing_entered": "scope_stack == old(scope_stack) and self._current_scope == old(self._current_scope)",
-                          "tables_kept": "self._symbol_tables == old(self._symbol_tables)"}},
+                          "tables_kept": "self._symbol_tables == old(self._symbol_tables)",
+                          "rep": "REP(self)"}},
     # a table found by lookup() was created by add(), hence is a root [A: class invariant of top-level tables]
     assume={"top_level_tables_are_roots": "implies(name.lower() in self._symbol_tables, self._symbol_tables[name.lower()]._parent is None)"},
     serves=["C09", "C16"],
@@ -168,9 +169,11 @@ contract(M + "SymbolTables.remove",
               "and dict_same_except(self._symbol_tables, old(self._symbol_tables), name.lower()))",
         "frame": "unchanged_except('_children', self._current_scope)",
         "tables_only_shrink": "dict_subset(self._symbol_tables, old(self._symbol_tables))",
+        "rep": "REP(self)",
     },
     raises={"SymbolTableError": {"unchanged": "self._symbol_tables == old(self._symbol_tables) and self._current_scope == old(self._current_scope) and scope_stack == old(scope_stack)",
                                  "children_kept": "unchanged_except('_children', None)",
-                                 "only_when": "name.lower() not in self._symbol_tables or self._current_scope is not None"}},
+                                 "only_when": "name.lower() not in self._symbol_tables or self._current_scope is not None",
+                                 "rep": "REP(self)"}},
     serves=["C09", "C16"],
 )
